@@ -70,8 +70,162 @@ def _wrappers(repo):
     return out
 
 
+def _argument_binding(ctx, repo) -> None:
+    """Interpret the tracked wrappers around stubs that carry the signatures of the real os / shutil /
+    pathlib callables, for every calling convention python accepts (positional, keyword, mixed): the
+    paths tested before the wrapped call and recorded / forgotten after it are the values python itself
+    binds to the parameters the patch table names."""
+    import inspect
+    import os
+    import pathlib
+    import shutil
+
+    from sa.engine import peval
+
+    mod = repo.module(FS)
+    cres = peval.repo_class_resolver(repo)
+    ip = repo.func(FS, f"{CLS}._initialize_patches")
+    tab = next((n.value for n in own_nodes(ip) if isinstance(n, ast.Assign) and norm(n.targets[0]) == "patches" and isinstance(n.value, ast.Dict)), None)
+    if tab is None:
+        raise AnalysisError("_initialize_patches: patch table not found")
+    real_modules = {"os": os, "shutil": shutil, "Path": pathlib.Path}
+    factory = repo.func(FS, f"{CLS}._create_tracked_method")
+    ctx.analysed(factory)
+
+    def harness(created):
+        log = []
+        it = peval.Interp(resolver=peval.repo_resolver(repo), class_resolver=cres, externs={"inspect.signature": inspect.signature}, native_types=(inspect.Signature, type(inspect.signature(os.rename).parameters)), max_steps=100000)
+        iso = it.instantiate(CLS, cres(CLS, mod), [], {}, init=False)
+        iso.fields["_created"] = set(created)
+        iso.methods["_is_foreign"] = lambda p: (log.append(("tested", p)), False)[1]
+        iso.methods["_abspath"] = lambda p: (log.append(("membership", p)), str(p))[1]
+        iso.methods["_record_created"] = lambda *ps: log.append(("recorded", tuple(x for x in ps if x is not None)))
+        iso.methods["_forget"] = lambda *ps: log.append(("forgotten", tuple(x for x in ps if x is not None)))
+        return iso, log
+
+    for k, v in zip(tab.keys, tab.values):
+        if not (isinstance(k, ast.Tuple) and isinstance(v, ast.Dict)):
+            continue
+        owner, name = norm(k.elts[0]), ast.literal_eval(k.elts[1])
+        real = getattr(real_modules.get(owner), name, None)
+        if real is None:
+            ctx.undecide("C29.args", v, f"{owner}.{name}: not a callable of this python")
+            continue
+        spec = {ast.literal_eval(a): ast.literal_eval(b) for a, b in zip(v.keys, v.values)}
+        sig = inspect.signature(real)
+        params = list(sig.parameters.values())
+        idxs = {kind: spec[kind] for kind in ("forget_arg_idx", "record_arg_idx", "record_dst_idx") if spec.get(kind) is not None}
+        roles = {"record_dst_idx": ("dst",), "forget_arg_idx": ("src", "path", "self", "name"), "record_arg_idx": ("path", "name", "self")}
+        wrong = [f"{kind}={i} names parameter `{params[i].name if i < len(params) else None}` of {owner}.{name}{sig}" for kind, i in idxs.items() if i >= len(params) or params[i].name not in roles[kind]]
+        ctx.check("C29.args", v, not wrong, f"patch table entry {owner}.{name}: " + "; ".join(wrong) + ": the guard and the bookkeeping look at a parameter that is not the path the operation " + ("writes" if any("dst" in w for w in wrong) else "creates or destroys"), what=f"{owner}.{name}: indices name the path parameters", stmt=f"[indices] {owner}.{name}")
+        if wrong:
+            continue
+        n_path = max(idxs.values()) + 1
+        values = [f"/iso/{name}/p{i}" for i in range(n_path)]
+        # calling conventions: how many leading path parameters are passed positionally
+        for n_pos in range(n_path + 1):
+            if any(params[i].kind is inspect.Parameter.POSITIONAL_ONLY or params[i].name == "self" for i in range(n_pos, n_path)):
+                continue
+            args = tuple(values[:n_pos])
+            kwargs = {params[i].name: values[i] for i in range(n_pos, n_path)}
+            extra = [p_ for p_ in params[n_path:] if p_.default is inspect.Parameter.empty and p_.kind in (inspect.Parameter.POSITIONAL_OR_KEYWORD, inspect.Parameter.POSITIONAL_ONLY)]
+            if extra and n_pos == n_path:
+                args = (*args, *["data"] * len(extra))
+            elif extra:
+                kwargs.update({p_.name: "data" for p_ in extra})
+            label = f"[{owner}.{name}({', '.join([*map(repr, args), *[f'{a}={b!r}' for a, b in kwargs.items()]])})]"
+            calls = []
+
+            def stub(*a, _calls=calls, **kw):
+                _calls.append((a, kw))
+
+            stub.__signature__ = sig
+            iso, log = harness(values)
+            try:
+                tracked = iso.methods["_create_tracked_method"](stub, **spec)
+                tracked(*args, **kwargs)
+            except peval.Undecided as exc:
+                ctx.undecide("C29.args", v, f"{label}: {exc}")
+                continue
+            except peval.Raises as exc:
+                ctx.fail("C29.args", v, f"{label}: the wrapper raises {exc.name} ({exc.detail[:60]}) for a call python accepts on paths the isolation created", stmt=label)
+                continue
+            at_call = next((i for i, e in enumerate(log) if e[0] in ("recorded", "forgotten")), len(log))
+            before, after = log[:at_call], log[at_call:]
+            problems = []
+            if calls != [(args, kwargs)]:
+                problems.append(f"the wrapped callable is called with {calls}")
+            if "forget_arg_idx" in idxs:
+                want = values[idxs["forget_arg_idx"]]
+                if ("membership", want) not in before:
+                    problems.append(f"the path that is destroyed / moved away, {want!r}, is not the one tested to be a created path ({[e for e in before if e[0] == 'membership']})")
+                if ("forgotten", (want,)) not in after:
+                    problems.append(f"{want!r} is not forgotten afterwards ({[e for e in after if e[0] == 'forgotten']})")
+            tested = [e[1] for e in before if e[0] == "tested"]
+            recorded = [x for e in after if e[0] == "recorded" for x in e[1]]
+            for kind in ("record_dst_idx", "record_arg_idx"):
+                if kind in idxs:
+                    want = values[idxs[kind]]
+                    if (kind == "record_dst_idx" or spec.get("overwrites")) and want not in tested:
+                        problems.append(f"the path that is written, {want!r}, is not tested to be foreign before the call (tested: {tested})")
+                    if want not in recorded:
+                        problems.append(f"{want!r} is not recorded as created (recorded: {recorded})")
+            ctx.check("C29.args", v, not problems, f"{label}: " + "; ".join(problems) + ": with this calling convention the guard looks at another argument than the one the operation writes or destroys - a pre-existing path is overwritten, or a created one left behind", what=label, stmt=label)
+
+
+def _cwd_independence(ctx, repo) -> None:
+    """_abspath interpreted for a relative name before and after the working directory changed, with the
+    memoisation of cached helpers modelled (one cache for both calls, as in one process)."""
+    import posixpath
+
+    from sa.engine import peval
+    from sa.engine.index import decorator_names
+
+    mod = repo.module(FS)
+    cres = peval.repo_class_resolver(repo)
+    ab = repo.func(FS, f"{CLS}._abspath")
+    ctx.analysed(ab)
+    cwd = ["/work/A"]
+    memo: dict = {}
+    cached = {qn: fn for qn, fn in mod.functions.items() if "." not in qn and any("cache" in d for d in decorator_names(fn))}
+    externs = {"os.getcwd": lambda: cwd[0], "os.path.abspath": lambda p: posixpath.normpath(posixpath.join(cwd[0], str(p))), "os.path.isabs": posixpath.isabs, "os.path.join": posixpath.join,
+               "os.path.normpath": posixpath.normpath, "os.fspath": lambda p: str(p), "Path.cwd": lambda: cwd[0]}
+    holder = {}
+
+    def memoised(qn, fn):
+        def call(*args):
+            key = (qn, args)
+            if key not in memo:
+                memo[key] = holder["it"].run_function(fn, list(args), {}, mod)
+            return memo[key]
+
+        return call
+
+    for qn, fn in cached.items():
+        externs[qn] = memoised(qn, fn)
+    it = peval.Interp(resolver=peval.repo_resolver(repo), class_resolver=cres, externs=externs, native_types=(type(posixpath),))
+    holder["it"] = it
+    iso = it.instantiate(CLS, cres(CLS, mod), [], {}, init=False)
+    for rel in ("out.txt", "sub/../out.txt"):
+        try:
+            cwd[0] = "/work/A"
+            first = iso.methods["_abspath"](rel)
+            cwd[0] = "/work/B"
+            second = iso.methods["_abspath"](rel)
+            absolute = iso.methods["_abspath"]("/work/A/out.txt")
+        except (peval.Undecided, peval.Raises) as exc:
+            ctx.undecide("C29.cwd", ab, f"{rel}: {exc}")
+            continue
+        ok = first == "/work/A/out.txt" and second == "/work/B/out.txt" and absolute == "/work/A/out.txt"
+        ctx.check("C29.cwd", ab, ok, f"_abspath({rel!r}) is {first!r} in /work/A and {second!r} after the code under test changed to /work/B (memoised helpers: {sorted(cached)}): the bookkeeping of created paths and the foreign-path test then look at a file of the old directory - `open('out.txt', 'w')` after os.chdir overwrites a pre-existing file", what=f"_abspath({rel!r}) follows the working directory", stmt=f"[cwd] {rel}")
+
+
 def check(ctx) -> None:
     repo = ctx.repo
+    ctx.rule("C29.cwd", "ABSINT: _abspath of a relative name follows the current working directory although helpers are memoised (the cache is modelled across a chdir)", floor=2)
+    _cwd_independence(ctx, repo)
+    ctx.rule("C29.args", "ABSINT: the tracked wrappers, interpreted around stubs with the signatures of the real os / shutil / pathlib callables, test / record / forget exactly the values python binds to the parameters named by the patch table - for positional, keyword and mixed calls", floor=25)
+    _argument_binding(ctx, repo)
     ctx.rule("C29.preexist", "GUARD-DOM: every path handed to _record_created was, before the wrapped call, tested by _is_foreign (raise, or rebind to None), or is the result of a rename whose source was created and whose target was tested", floor=5)
     ctx.rule("C29.destructive", "the wrapped call of a destructive / overwriting wrapper is dominated by the created-membership or foreign test on its target", floor=5)
     ctx.rule("C29.table", "every destructive os/shutil/Path entry of the patch table has forget_arg_idx, every overwriting one `overwrites`, every copying one record_dst_idx", floor=19)
